@@ -186,25 +186,4 @@ mod verif_lazyraw_cache {
         std::mem::forget(olv);
     }
 
-    /// F17: cloning a raw value whose parse is cached keeps the raw text (so the clone serializes verbatim, like the
-    /// original) and never shares the original's cache allocation
-    #[kani::proof]
-    #[kani::unwind(8)]
-    fn owned_clone_keeps_raw() {
-        let cached: bool = kani::any();
-        let orig_ptr: *mut Parsed = if cached { Box::into_raw(Box::new(Parsed::Bool(kani::any()))) } else { std::ptr::null_mut() };
-        let packed = LazyPacked::Raw(LazyRaw { raw: FastStr::from_static_str("1.50"), parsed: AtomicPtr::new(orig_ptr) });
-        let cloned = packed.clone();
-        match &cloned {
-            LazyPacked::Raw(r2) => {
-                assert!(r2.raw.as_bytes() == b"1.50");
-                let p2 = r2.parsed.load(Ordering::Relaxed);
-                assert!(p2.is_null() || p2 != orig_ptr);
-                assert!(cached || p2.is_null());
-            }
-            _ => assert!(false),
-        }
-        std::mem::forget(cloned);
-        std::mem::forget(packed);
-    }
 }
